@@ -6,3 +6,10 @@ register(Adapter(
     "iNetX", lambda: inetx.iNetX(),
     ["inetxcontrol", "streamid", "sequence", "packetlen", "ptptimeseconds", "ptptimenanoseconds", "pif", "payload"],
     types=[inetx.iNetX]))
+
+import AcraNetwork.IENA as iena
+IENA_FIELDS = ["key", "size", "timeusec", "keystatus", "status", "sequence", "endfield", "payload", "lengthError"]
+register(Adapter("IENA", lambda: iena.IENA(), IENA_FIELDS, types=[iena.IENA]))
+register(Adapter("MParameter", None, ["paramid", "delay", "dataset"], types=[iena.MParameter],
+                 build=lambda d: iena.MParameter(**d)))
+register(Adapter("IENAM", lambda: iena.IENAM(), IENA_FIELDS + ["parameters"], types=[iena.IENAM]))
